@@ -366,6 +366,10 @@ def check(ctx):
                                      % (c, inner, render(sv))))
                         else:
                             r4.ok("%s::%s %s∘%s: operand class %s fits" % (owner, entry, c, inner, sorted(ks)))
+    from c10 import check_renderer_families
+    check_renderer_families(S, ev, r3)
+    for v_ in r3.violations:
+        v_.rule = r3.id
     r3.require_floor(16, "constructor renderings")
     r4.require_floor(40, "(outer hole, inner constructor) pairs")
     rules += [r3, r4]
@@ -456,6 +460,10 @@ def check(ctx):
                 if prod_.field(*fo) == TYPETEXT:
                     r6.bad(V(r6.id, tn, "rust-type-text-in-template:%s" % h, "`{{ %s }}` interpolates %s.%s, which holds Rust type text, not a translated TypeScript type" % (h, fo[0], fo[1])))
     r6.ok("%d typed template holes, none bound to a Rust-type-text field" % n_h)
+    from c12 import check_generics_kept_unconditionally
+    check_generics_kept_unconditionally(S, r6)
+    for v_ in r6.violations:
+        v_.rule = r6.id
     # sibling type_to_string renderers
     sib = {}
     for owner in ("CommandParser", "StructParser", "ChannelParser"):
